@@ -36,6 +36,25 @@ type violation struct {
 	Signature string          `json:"signature"`
 	Detail    string          `json:"detail"`
 	Case      json.RawMessage `json:"case"`
+	NoTZ      bool            `json:"no_time_zone_database,omitempty"`
+}
+
+// noTZ: children (batch numbers) that run without a time zone database, see tzlessCommand.
+var noTZ = map[int]bool{}
+
+// tzlessAvailable reports whether this sandbox lets us start a process in a mount
+// namespace of its own with an empty file system over /usr/share/zoneinfo.
+func tzlessAvailable() bool {
+	if _, err := exec.LookPath("unshare"); err != nil {
+		return false
+	}
+	return exec.Command("unshare", "-m", "sh", "-c", "mount -t tmpfs none /usr/share/zoneinfo").Run() == nil
+}
+
+// tzlessCommand wraps a command so that it runs without a time zone database.
+func tzlessCommand(bin string, args []string) *exec.Cmd {
+	all := append([]string{"-m", "sh", "-c", `mount -t tmpfs none /usr/share/zoneinfo && unset ZONEINFO && exec "$0" "$@"`, bin}, args...)
+	return exec.Command("unshare", all...)
 }
 
 type childResult struct {
@@ -236,6 +255,14 @@ func main() {
 		if abs, err := filepath.Abs(replay); err == nil {
 			replay = abs
 		}
+		if rb, err := os.ReadFile(replay); err == nil {
+			var rf struct {
+				NoTZ bool `json:"no_time_zone_database"`
+			}
+			if json.Unmarshal(rb, &rf) == nil && rf.NoTZ && tzlessAvailable() {
+				noTZ[0] = true
+			}
+		}
 		res, crashed := runChild(id, cfg, vmon, work, tier, seed, 0, 1, replay)
 		for _, v := range crashed {
 			if v.Signature == "infrastructure" {
@@ -274,6 +301,15 @@ func main() {
 	if par < 1 {
 		par = 8
 	}
+	tzNote := ""
+	if cfg.NoTZChild {
+		if tzlessAvailable() {
+			noTZ[nb-1] = true
+			tzNote = fmt.Sprintf("child %d of %d ran in a mount namespace without a time zone database", nb, nb)
+		} else {
+			tzNote = "no child could be run without a time zone database (unshare -m / mount not permitted here)"
+		}
+	}
 	var mu sync.Mutex
 	var results []childResult
 	var crashes []violation
@@ -288,6 +324,18 @@ func main() {
 			defer func() { <-sem }()
 			res, cr := runChild(id, cfg, vmon, work, tier, seed, b, nb, "")
 			mu.Lock()
+			if noTZ[b] {
+				for i := range res {
+					for j := range res[i].Violations {
+						res[i].Violations[j].NoTZ = true
+						res[i].Violations[j].Detail += " [this child ran without a time zone database]"
+					}
+				}
+				for i := range cr {
+					cr[i].NoTZ = true
+					cr[i].Detail += " [this child ran without a time zone database]"
+				}
+			}
 			results = append(results, res...)
 			for _, c := range cr {
 				if c.Signature == "infrastructure" {
@@ -381,7 +429,7 @@ func main() {
 		"hook_files":          ov.Files,
 		"build_s":             round2(buildS),
 		"race_detector":       cfg.Race || cfg.BinRace || cfg.PreludeRace,
-		"notes":               notes,
+		"notes":               append(notes, tzNote),
 	}
 	if len(inconcl) > 0 {
 		n := inconcl
@@ -437,7 +485,7 @@ func main() {
 		printed := map[string]bool{}
 		for _, v := range unknown {
 			b, _ := json.MarshalIndent(map[string]interface{}{
-				"property": id, "signature": v.Signature, "detail": v.Detail, "case": v.Case, "seed": seed, "tier": tier,
+				"property": id, "signature": v.Signature, "detail": v.Detail, "case": v.Case, "seed": seed, "tier": tier, "no_time_zone_database": v.NoTZ,
 			}, "", " ")
 			sum := sha1.Sum(append([]byte(v.Signature), v.Case...))
 			p := filepath.Join(dir, hex.EncodeToString(sum[:6])+".json")
@@ -506,8 +554,12 @@ func runChild(id string, cfg propCfg, vmon, work, tier string, seed uint64, batc
 		args = append(args, "-replay", replay)
 	}
 	cmd := exec.Command(vmon, args...)
-	cmd.Dir = cdir
 	env := os.Environ()
+	if noTZ[batch] {
+		cmd = tzlessCommand(vmon, args)
+		env = append(env, "VMON_NOTZ=1")
+	}
+	cmd.Dir = cdir
 	env = append(env, "GORACE=halt_on_error=1 exitcode=66", "GOTRACEBACK=all", "VERIF_REPO="+repoDir)
 	cmd.Env = env
 	lf, err := os.Create(logPath)
